@@ -87,9 +87,6 @@ def _call(drv, model, kind, arg):
         return [_fx(v) for v in df["flux_maximum"]]
     if kind in ("minimal_medium", "minimal_medium_components"):
         from cobra.medium import minimal_medium
-        # F33: an infinite exchange bound makes GLPK abort the process with minimize_components
-        if kind.endswith("components") and any(math.isinf(b) for r in model.exchanges for b in r.bounds):
-            raise Skip("would abort the interpreter (known finding F33)")
         res = minimal_medium(model, min_objective_value=1.0 * drv.scale,
                              minimize_components=kind.endswith("components"), exports=bool(arg % 2))
         return [] if res is None else sorted(_fx(v) for v in (res.values.ravel() if hasattr(res, "values") else res))
